@@ -64,6 +64,11 @@ CLAIMED = {
    text="Structure-level self-consistency: over 144 template shapes (network x metadata x redeemers x witness scripts x signers x references) the emitted body carries the configured network id, auxiliary-data and script-data hashes exactly when metadata / redeemers are present and taken of the very values that are emitted, no empty set-like field; for all mint/burn amounts below 2^62 the net quantity is exact and cancelling amounts leave neither a zero quantity nor an empty policy nor an empty mint map; witness-script order is independent of hash iteration order; Compiler::compile reports the hash of the body it serialises, remembers that body, and reports the size fee of the returned payload.",
    note="byte-level well-formedness, digest values and decoder acceptance are outside (encoders/digests uninterpreted); pallas constructors are contracts.",
    design="§3 C10"),
+ "C16": dict(
+   technique="symbolic execution of the MIR of the JSON coercions, envelope decoding and request assembly (mirsym -> z3) over strings of symbolic bytes with text-primitive models",
+   text="from_json inverts the documented encodings for every value within the bounds: every i128 through 0x + 32 hex digits (both cases), decimal strings of 1-6 digits with optional sign, every JSON integer, the five boolean forms (and nothing else among all 4/5-character strings and all integers), 0-3 bytes as bare and 0x hex, txid#index with 1-4 digit indices; for every string of up to 4 (quick) / 6 (thorough) printable ASCII characters and every target type the result is Ok only for a documented encoding and never a panic; envelope decoding never panics for any content of up to 4 characters; parse_resolve_request hands over exactly the declared parameters that args or env supply (presence of each key symbolic), coerced by declared type.",
+   note="string primitives (starts_with, strip_prefix, trim_start_matches, split_once, hex::decode, from_str_radix, parse) are models; base64 / bech32 / ciborium are uninterpreted; serde_json parsing happens before this code.",
+   design="§3 C16"),
 }
 
 NA = {
